@@ -430,7 +430,25 @@ namespace
                 Node* n = alloc(kind, iface, sz, al);
                 if (n)
                 {
-                    if (side != 0)
+                    if (side == 4)
+                    {
+                        // both fences of the same node: byte idx in front of it and byte idx2 behind it
+                        long idx2 = static_cast<long>(c.arg(7, 0));
+                        long offs[2] = {-1 - idx, static_cast<long>(sz) + idx2};
+                        bool ok[2]   = {n->mine && static_cast<std::size_t>(idx) < n->fpre,
+                                        n->mine && static_cast<std::size_t>(idx2) < n->fpost};
+                        for (int k = 1; k >= 0; --k) // the back one first: the order of the writes must not matter
+                        {
+                            int old = -1;
+                            if (ok[k])
+                            {
+                                old           = static_cast<unsigned char>(n->p[offs[k]]);
+                                n->p[offs[k]] = static_cast<char>(val);
+                            }
+                            Ev("wr").i("id", n->id).i("off", offs[k]).i("val", val).i("old", old).b("done", ok[k]);
+                        }
+                    }
+                    else if (side != 0)
                     {
                         long off   = side == 1 ? -1 - idx
                                      : side == 2 ? static_cast<long>(sz) + idx
